@@ -4,7 +4,6 @@ import (
 	"fmt"
 	"go/constant"
 	"go/types"
-	"os"
 	"strings"
 
 	"golang.org/x/tools/go/ssa"
@@ -578,7 +577,7 @@ func (c *SpecCtx) evalQuant(x *EQuant) *V {
 	} else {
 		d.patCands = nil
 	}
-	outermost := c.hints == nil && os.Getenv("GOVC_NO_GROUNDHINTS") == ""
+	outermost := c.hints == nil && c.u.ghints
 	if outermost {
 		d.hints = &[]T{}
 		r := c.evalQuantIn(&d, x, decls, &cands)
